@@ -40,6 +40,11 @@ def base_streams(tier):
     for lvl, n in ((1, 100000), (1, 100001), (2, 100001), (9, 900000)) if not quick else ((1, 100000), (1, 100001)):
         Lz = bytes(n)
         one('B:cap L%d n%d' % (lvl, n), Block(L=Lz, origptr=n - 1, plain_for_crc=_unrle(Lz)), level=lvl, mutate='none')
+    # a block of the largest size whose BWT output never repeats a byte: 900000 MTF symbols plus the end-of-block
+    # symbol = 18001 groups of 50, the most a conforming stream can need (bzip2 itself stops at 899981 bytes)
+    for n, lvl in ((900000, 9), (899950, 9), (100000, 1)) if not quick else ((900000, 9),):
+        Lalt = b'ab' * (n // 2)
+        one('B:alternating n%d (%d groups)' % (n, (n + 1 + 49) // 50), Block(L=Lalt, origptr=0, plain_for_crc=_unrle(_ibwt(Lalt, 0))), level=lvl, mutate='none')
     # C: primary index
     for op in (0, 4, 5, 6):
         b = Block(b'abcab')
@@ -71,6 +76,10 @@ def base_streams(tier):
     pl19 = bytes(range(19)) * 2
     one('F:ladder20', Block(pl19, tables=[lad, bzgen.flat_code(21)]), mutate='fields')
     one('F:ladder20 rev', Block(pl19, tables=[list(reversed(lad)), lad]), mutate='fields')
+    # every code that occurs is 20 bits long (the short codes go to symbols that never occur): a group of 50
+    # then takes 1000 bits, the most the fast path of retrieve() has to allow for
+    one('F:all20bit', all20_block(260), mutate='fields')
+    one('F:all20bit short', all20_block(60), mutate='none')
     # G: delta-code paths with excursions
     exc = [[+1, -1], [-1, +1], [+1, +1, -1, -1], [-1, -1, +1, +1], [+1, -1, +1, -1], [-1, +1, -1, +1],
            [+1, -1, -1, +1], [-1, +1, +1, -1], [+1, +1, +1, -1, -1, -1], [-1, -1, -1, +1, +1, +1]]
@@ -126,6 +135,19 @@ def base_streams(tier):
         add('J:trail %r' % tr[:12], [s1], trailing=tr, mutate='none')
     return out
 
+def all20_block(nsym, shift=0):
+    """139 byte values used round-robin: every MTF symbol is the deepest one; code lengths 1..13 for the 13
+    symbols that never occur and 20 for the other 128 (Kraft sum exactly 1)"""
+    L = bytes(i % 139 for i in range(nsym + 139))     # the first 139 bring every value to the front once
+    lens = list(range(1, 14)) + [20] * 128
+    assert len(lens) == 141
+    # the first round uses MTF ranks 0..138 (rank r for the r-th new value): give the whole alphabet 20-bit-heavy
+    # codes by numbering: symbols 0,1 (RUNA/RUNB) and 2..12 get the short codes only if they do not occur; the
+    # first round does use small ranks, so start the block with the values in descending order instead
+    L = bytes(138 - (i % 139) for i in range(139)) + bytes(138 - (i % 139) for i in range(nsym))
+    # `shift' surplus selectors of one bit each move the coded data by that many bits
+    return Block(L=L, origptr=0, plain_for_crc=_unrle(_ibwt(L, 0)), tables=[lens, lens], surplus=shift)
+
 def _unrle(rle):
     out = bytearray()
     i, n = 0, len(rle)
@@ -151,7 +173,24 @@ def _ibwt(L, idx):
     return bytes(out)
 
 def candidates(tier, chk=None):
-    """Distinct candidate byte strings with a description each."""
+    """Distinct candidate byte strings with a description each (memoised on disk: the
+    generator is pure Python and depends only on this file and bzgen.py)."""
+    import pickle
+    key = build._hash_files([__file__, bzgen.__file__], [tier])
+    cp = os.path.join(build.CACHE, 'decdiff-cands-%s.pickle' % key)
+    try:
+        with open(cp, 'rb') as f:
+            return pickle.load(f)
+    except Exception:
+        pass
+    r = _candidates(tier)
+    os.makedirs(build.CACHE, exist_ok=True)
+    with open(cp + '.tmp.%d' % os.getpid(), 'wb') as f:
+        pickle.dump(r, f)
+    os.replace(cp + '.tmp.%d' % os.getpid(), cp)
+    return r
+
+def _candidates(tier):
     seen = {}
     order = []
     cur = [0]
@@ -194,7 +233,9 @@ def configs_for(data, v, base_out=0):
     two workers with tiny input blocks / output buffers (larger ones for big
     streams so that a run stays within the horizon of the scheduler harness)."""
     big = len(data) > 300 or v['out_len'] > 1500 or base_out > 1500
-    env = ({'LBZIP2_VERIF_IN_GRANUL': '256', 'LBZIP2_VERIF_OUT_GRANUL': '65536'} if big else
+    huge = len(data) > 20000 or v['out_len'] > 2000000 or base_out > 2000000
+    env = ({'LBZIP2_VERIF_IN_GRANUL': '16384'} if huge else
+           {'LBZIP2_VERIF_IN_GRANUL': '256', 'LBZIP2_VERIF_OUT_GRANUL': '65536'} if big else
            {'LBZIP2_VERIF_IN_GRANUL': '8', 'LBZIP2_VERIF_OUT_GRANUL': '3'})
     return [('W1 stock', ['-n1'], {}), ('W2 tiny-granularity', ['-n2'], env)]
 CONFIG_NAMES = ['W1 stock', 'W2 tiny-granularity']
